@@ -264,7 +264,7 @@ impl Ctx {
                 let (s, e) = match self.rng.below(12) {
                     0 => (len + 1, len + 1),
                     1 => (0, len + 1),
-                    2 => (len.min(2), len.min(2).saturating_sub(1)),
+                    2 => if self.rng.chance(1, 2) { (len + 1, len) } else { (len.min(2), len.min(2).saturating_sub(1)) },
                     _ => {
                         let a = self.rng.below(len as u64 + 1) as usize;
                         let b = self.rng.below(len as u64 + 1) as usize;
@@ -311,7 +311,7 @@ impl Ctx {
             19 => {
                 let (s, e) = match self.rng.below(10) {
                     0 => (0, len + 1),
-                    1 => (len.min(1) + 1, len.min(1)),
+                    1 => if self.rng.chance(1, 2) { (len + 1, len) } else { (len.min(1) + 1, len.min(1)) },
                     _ => {
                         let a = self.rng.below(len as u64 + 1) as usize;
                         let b = self.rng.below(len as u64 + 1) as usize;
@@ -387,7 +387,7 @@ impl Ctx {
             _ => {
                 let (s, e) = match self.rng.below(10) {
                     0 => (0, len + 1),
-                    1 => (len.min(1) + 1, len.min(1)),
+                    1 => if self.rng.chance(1, 2) { (len + 1, len) } else { (len.min(1) + 1, len.min(1)) },
                     _ => {
                         let a = self.rng.below(len as u64 + 1) as usize;
                         let b = self.rng.below(len as u64 + 1) as usize;
@@ -949,6 +949,8 @@ impl Ctx {
         let _ = writeln!(self.out, "# exits {}", hist(&self.exit_hist));
         let _ = writeln!(self.out, "# kinds {}", hist(&self.kind_hist));
         let _ = writeln!(self.out, "# branches {}", self.counters.iter().map(|(k, v)| format!("{k}={v}")).collect::<Vec<_>>().join(" "));
+        let rf = range_form_hist();
+        let _ = writeln!(self.out, "# range-forms {}", RANGE_FORMS.iter().zip(rf.iter()).map(|(n, c)| format!("`{n}`={c}")).collect::<Vec<_>>().join(" "));
         let _ = writeln!(self.out, "# summary oracle_checks={} oracle_failures={}", self.oracle_checks, self.oracle_failures);
     }
 }
